@@ -146,10 +146,13 @@ func TestWorker(t *testing.T) {
 					ok = false
 				}
 			}
-			if !ok && os.Getenv("VERIF_NONREPRO_OK") != "" {
-				// engines whose runs contain choices the simulator cannot pin (the Go
-				// runtime's pick among several ready select cases): report the
-				// violation with the unminimised scenario and say so
+			if !ok && os.Getenv("VERIF_NONREPRO_STRICT") == "" {
+				// The oracle saw a violation in a real execution, but re-executing the
+				// scenario from its tape did not show it again: the run contains
+				// choices the simulator cannot pin (the Go runtime's pick among
+				// several ready select cases, wake-up order of racing goroutines).
+				// It is reported with the unminimised scenario and says so; it is
+				// not turned into a harness error, which would hide a real defect.
 				p := filepath.Join(replayDir, fmt.Sprintf("%s-seed%d-run%d.replay.json", prop, seed, run))
 				res.Violation.Detail += "\n(did not reproduce on an immediate in-process replay of its tape: the run contains runtime select choices outside the simulator's control; the replay file is the unminimised scenario)"
 				fc.Violation = res.Violation
